@@ -183,6 +183,16 @@ class Model:
             return self.g.exp(args[0])
         if name == 'lowest':
             return self.g.LOWEST
+        if name in ('min', 'max') and len(args) == 2 and all(z3.is_expr(a) for a in args):
+            a, b = args
+            return z3.If(a < b, a, b) if name == 'min' else z3.If(a < b, b, a)
+        if name in ('min', 'max', 'epsilon', 'infinity', 'denorm_min') and not args:
+            # other members of numeric_limits<float>: named constants; min / epsilon / denorm_min are small POSITIVE numbers, max / infinity large ones
+            c = z3.Real('float_' + name)
+            ex.assume(c > 0)
+            if name in ('max', 'infinity'):
+                ex.assume(c > -self.g.LOWEST - 1)
+            return c
         if name in ('log', 'sqrt', 'fabs', 'abs', 'pow', 'log2', 'log10', 'expf', 'logf') and all(z3.is_expr(a) for a in args):
             # other <cmath> functions: uninterpreted (nothing is assumed about them)
             f = z3.Function('cmath_' + name, *[a.sort() for a in args], R_)
